@@ -264,6 +264,51 @@ def run_lite(sim, nfc, params):
                                 "well-formed responses with %d block(s); %r" % (kblocks, desc), {"clause": "tamper"})
             sim.probe("tamper.detected")
         replay_step(sim, nfc, w, prod, key, desc)
+    ndef_cache_step(sim, nfc, lite_s, key, prod, desc)
+
+
+def ndef_cache_step(sim, nfc, lite_s, key, prod, desc):
+    """NDEF data read before authentication (no MAC: an attacker can alter it in transit) must not be what the tag
+    object returns after authenticate() succeeded: the authenticated object reads again, with MAC."""
+    from dsim.w1 import t3t
+    msg = b"\xd1\x01\x10T\x02en" + sim.bytes("ndef.msg", 13, tag=40)
+    user = {0: t3t.attr_block(0x10, 4, 1, 13, 0, 1, len(msg)), 1: msg[:16], 2: msg[16:] + bytes(32 - len(msg))}
+    with lite_world(nfc, sim, lite_s, key, user=user) as w:
+        tag = w.discover(("212F",))
+        hits = [0]
+
+        def tamper(idx, cmd, rsp):
+            if len(cmd) > 1 and cmd[1] == 0x06 and rsp is not None and len(rsp) >= 13 + 32 and rsp[12] >= 2:
+                r = bytearray(rsp)
+                r[13 + 9] ^= 0x20          # one altered payload octet in the first data block
+                hits[0] += 1
+                return bytes(r)
+            return rsp
+        w.device.tamper = tamper
+        try:
+            n1 = tag.ndef
+            o1 = None if n1 is None else bytes(n1.octets)
+        except Exception:
+            o1 = None
+        w.device.tamper = None
+        if not hits[0] or o1 is None or o1 == msg:
+            sim.probe("ndef_cache.setup_not_reached")
+            return
+        sim.fault("tamper_before_auth")
+        if call_auth(sim, tag, key, desc, "ndef-cache") is not True:
+            sim.probe("ndef_cache.auth_failed")
+            return
+        try:
+            n2 = tag.ndef
+            o2 = None if n2 is None else bytes(n2.octets)
+        except nfc.tag.TagCommandError:
+            o2 = None
+        sim.cls(prod, "ndef-cache", o2 is None, o2 == msg)
+        if o2 is not None and o2 != msg:
+            raise Violation("stale-unverified-data", prod, "tag.ndef of the authenticated tag object returns the octets read before "
+                            "authentication (altered in transit, never verified by a MAC) instead of reading again with MAC: %s, "
+                            "the tag holds %s; %r" % (o2.hex(), msg.hex(), desc), {"clause": "tamper"})
+        sim.probe("ndef_cache.reread_after_auth")
 
 
 def replay_step(sim, nfc, w, prod, key, desc):
